@@ -289,3 +289,7 @@ mod tests {
         assert!(vec.remove_label_values(&[v1.clone(), v3.clone()]).is_err());
     }
 }
+
+// Verification hook: unit-level harnesses are compiled as a child module (only with `--cfg prometheus_verif`).
+#[cfg(all(prometheus_verif, any(kani, prometheus_verif_replay)))]
+include!(concat!(env!("PROMETHEUS_VERIF_INCRATE"), "/gauge.rs"));
